@@ -104,8 +104,9 @@ QtyChunks(q, sp0) ==
 \* how the quantity reads: a unit after a blank instead of `%` is part of a text value unless ADVANCED_UNITS
 ReadQty(q) == IF q = NoQ THEN NoQ ELSE [v |-> ReadVal(q.v), unit |-> q.unit, lock |-> q.lock]
 \* a text value that starts with a number and has no `%` unit is "number unit" for ADVANCED_UNITS
-NumberLed(q) == q # NoQ /\ q.v = Txt("2 large") /\ q.unit = "" /\ ~q.lock
-ReadQtySp(q, sp) == IF NumberLed(q) /\ Has("ADVANCED_UNITS") THEN [v |-> Num("2"), unit |-> "large", lock |-> FALSE]
+\* (the scaling lock `=` is read before the split, so it stays on the number)
+NumberLed(q) == q # NoQ /\ q.v = Txt("2 large") /\ q.unit = ""
+ReadQtySp(q, sp) == IF NumberLed(q) /\ Has("ADVANCED_UNITS") THEN [v |-> Num("2"), unit |-> "large", lock |-> q.lock]
                     ELSE IF AdvUsed(q, sp) /\ ~Has("ADVANCED_UNITS")
                     THEN [v |-> Txt(Flat(ValChunks(q.v, Canon), 1) \o " " \o q.unit), unit |-> "", lock |-> q.lock]
                     ELSE ReadQty(q)
